@@ -329,13 +329,39 @@ example : (decBrackets "(S(A LRB w))".toList).map (fun d => sameTree d (carryBra
 
 /-! when grammatical functions are not printed on tokens the extra hypothesis `hr` follows from `hl` -/
 
+theorem fillMarks_label (t : Tree) : (fillMarks t).fields.label = t.fields.label := by
+  cases t <;> rfl
+
+theorem fillMarks_decorations (o : OutOpts) (t : Tree) : decorations o (fillMarks t) = decorations o t := by
+  have e1 : (fillMarks t).fields.edge.getD DEFAULT_EDGE = t.fields.edge.getD DEFAULT_EDGE := by
+    cases t <;> simp [fillMarks, setFields, fields]
+  have e2 : (fillMarks t).kids = t.kids := by cases t <;> rfl
+  have e3 : ((fillMarks t).fields.head = some true) = (t.fields.head = some true) := by
+    cases t with
+    | leaf n f => cases h : f.head <;> simp [fillMarks, setFields, fields, h]
+    | node f ks => cases h : f.head <;> simp [fillMarks, setFields, fields, h]
+  have e4 : ((fillMarks t).fields.split = some true) = (t.fields.split = some true) := by
+    cases t with
+    | leaf n f => cases h : f.split <;> simp [fillMarks, setFields, fields, h]
+    | node f ks => cases h : f.split <;> simp [fillMarks, setFields, fields, h]
+  have e5 : (fillMarks t).fields.blockNumber = t.fields.blockNumber := by cases t <;> rfl
+  unfold decorations
+  simp only [e1, e2, e3, e4, e5]
+
 theorem printedLabel_cases (o : OutOpts) (t : Tree) :
     printedLabel o t = t.fields.label ∨ printedLabel o t = t.fields.label ++ decorations o t := by
   unfold printedLabel
   rw [getLabel_setEdge]
   cases h : getLabel o t with
-  | error e => exact Or.inl rfl
   | ok l => exact Or.inr (TT.Props.C20.getLabel_decorations o t l h)
+  | error e =>
+    cases h2 : getLabel o (fillMarks t) with
+    | error e2 => exact Or.inl rfl
+    | ok l =>
+      right
+      have := TT.Props.C20.getLabel_decorations o _ l h2
+      rw [fillMarks_label, fillMarks_decorations] at this
+      exact this
 
 theorem brackets_vals_good : ∀ kv ∈ Gen.BRACKETS, ∀ c ∈ kv.2, c ≠ '(' ∧ c ≠ ')' ∧ c ≠ ' ' := by decide
 
